@@ -72,6 +72,7 @@ type FuncVC struct {
 	truncated     bool
 	visits        map[*ssa.BasicBlock]int
 	nFeas, pruned int
+	curBinds      []Val
 }
 
 func (vc *FuncVC) addTrivial(name string) { vc.trivial[name]++ }
@@ -181,6 +182,9 @@ func (vc *FuncVC) specVars(st *State) map[string]SV {
 			continue // captured by reference: the spec name denotes the variable's current value
 		}
 		vars[k] = SV{V: v, T: fr.localT[k]}
+	}
+	for k, v := range fr.localAddr {
+		vars[k] = v
 	}
 	return vars
 }
@@ -329,6 +333,10 @@ func VerifyFunc(g *Gen, fn *ssa.Function, con *Contract, maxPaths int) *FuncVC {
 		}
 	}
 	vc.assumeClauses(st, env, con.Requires, "requires")
+	vc.assumeClauses(st, env, con.Assumes, "assume")
+	for _, a := range con.Assumes {
+		g.note("assumed (unchecked) in " + vc.name + ": [" + a.Label + "] " + a.Src)
+	}
 	// reachability cover of the precondition
 	vc.obls = append(vc.obls, &Obligation{Name: vc.name + "#cover[requires]", Func: vc.name, Kind: "cover[requires]", NDecl: len(g.decls),
 		PC: append([]string(nil), st.pc...), Goal: "false", Cover: true})
@@ -456,6 +464,19 @@ func (vc *FuncVC) explore(st *State, b *ssa.BasicBlock, idx int, prev *ssa.Basic
 				if id, ok := x.Expr.(interface{ String() string }); ok && !x.IsAddr {
 					_ = id
 				}
+				if obj := x.Object(); obj != nil && x.IsAddr {
+					// address-taken local (captured by a closure): specs name the variable, read through its cell
+					if _, isVar := obj.(*types.Var); isVar {
+						if v, ok := st.fr.regs[x.X]; ok {
+							if st.fr.localAddr == nil {
+								st.fr.localAddr = map[string]SV{}
+							}
+							if pt, ok := x.X.Type().Underlying().(*types.Pointer); ok {
+								st.fr.localAddr[obj.Name()] = SV{V: v, T: x.X.Type(), Deref: pt.Elem()}
+							}
+						}
+					}
+				}
 				if obj := x.Object(); obj != nil && !x.IsAddr {
 					if _, isVar := obj.(*types.Var); isVar {
 						if v, ok := st.fr.regs[x.X]; ok {
@@ -474,8 +495,8 @@ func (vc *FuncVC) explore(st *State, b *ssa.BasicBlock, idx int, prev *ssa.Basic
 				st.execInstr(in)
 				continue
 			}
-			if _, isGo := x.(*ssa.Go); isGo {
-				st.execInstr(in)
+			if gs, isGo := x.(*ssa.Go); isGo {
+				vc.goStmt(st, gs)
 				continue
 			}
 			if top && len(vc.con.AtCall) > 0 {
